@@ -34,6 +34,56 @@ enum Op {
 
 const PRESETS: &[Option<u64>] = &[None, Some(300), Some(256 * 40 - 3), Some((1 << 32) - 5), Some((1 << 56) - 3), Some(1 << 63), Some(u64::MAX - 5000)];
 
+/// Differential case on the replay window itself (re-exported by the hook): the window must accept a sequence
+/// exactly when it was not accepted before and is less than 256 behind the highest accepted one.
+fn replay_window_case(ctx: &mut Ctx) -> Outcome {
+    use renetcode::verif::ReplayProtection;
+    let mut rp = ReplayProtection::new();
+    let mut accepted: BTreeSet<u64> = BTreeSet::new();
+    // ReplayProtection::new() starts with most_recent_sequence = 0 and nothing received
+    let base = ctx.src.pick(&[0u64, 200, 256 * 3, (1 << 32) - 300, (1 << 56) - 10, (1 << 63) - 128, u64::MAX - 2000]);
+    let n = 50 + ctx.src.below(ctx.tier.pick(400, 1500));
+    ctx.op(&("replay_window", base, n));
+    let mut behind = false;
+    for _ in 0..n {
+        let max = accepted.iter().next_back().copied();
+        let m = max.unwrap_or(base);
+        let seq = match ctx.src.weighted(&[8, 4, 3, 3, 3, 3, 3, 3]) {
+            0 => m.saturating_add(1),
+            1 => m.saturating_add(1 + ctx.src.below(300) as u64),
+            2 => m,
+            3 => m.saturating_sub(ctx.src.below(8) as u64),
+            4 => m.saturating_sub(255),
+            5 => m.saturating_sub(256),
+            6 => m.saturating_sub(256 * (1 + ctx.src.below(3) as u64) + ctx.src.pick(&[0u64, 1, 255])),
+            _ => m.saturating_sub(ctx.src.below(300) as u64),
+        }
+        .max(base)
+        // 2^64-1 is the window's 'empty' marker and cannot be followed by another sequence: not a usable sequence number
+        .min(u64::MAX - 1);
+        let expected_reject = accepted.contains(&seq) || max.map(|mx| mx >= seq && mx - seq >= 256).unwrap_or(false);
+        let got_reject = rp.already_received(seq);
+        if got_reject != expected_reject {
+            return Err(Fail::new(
+                if got_reject { "window_rejects_fresh" } else { "window_accepts_replay" },
+                format!("replay window: sequence {seq} (highest accepted {max:?}, accepted before: {}) -> already_received = {got_reject}, expected {expected_reject}", accepted.contains(&seq)),
+            ));
+        }
+        if !got_reject {
+            rp.advance_sequence(seq);
+            if max.map(|mx| seq < mx).unwrap_or(false) {
+                behind = true;
+            }
+            accepted.insert(seq);
+        }
+    }
+    ctx.label("replay_window_model");
+    if behind {
+        ctx.nontrivial = true;
+    }
+    Ok(())
+}
+
 impl Property for C04 {
     fn id(&self) -> &'static str {
         "C04"
@@ -42,21 +92,25 @@ impl Property for C04 {
         "exploration"
     }
     fn rule(&self) -> String {
-        "A case = 1-3 sessions connected to one secure server (fresh token each), per session and direction a pool of 300-1500 genuine payload datagrams produced by generate_payload_packet with the send counter preset to natural, 300, 256k-3, 2^32-5, 2^56-3, 2^63 or 2^64-5001; then a history of presentations whose sequence is chosen relative to the highest accepted one (next, max+k, max, max-1, max-255, max-256, max-257, max-256k, random) and whose form is genuine first-time, replay, bit-flipped / truncated / extended / prefix-modified copy, re-addressed to another session's endpoint or source address, presented in the other direction, or re-sealed with the session's own key under another protocol id or with another session's key. Model per session and direction = set of accepted sequences and their maximum (initialised with the replay-protected handshake packets). Oracles: a payload surfaces only from an unmodified genuine datagram of that session and direction, equals the bytes given to generate_payload_packet, carries that session's client id, and no datagram surfaces twice; an unmodified genuine datagram presented for the first time while less than 256 behind the highest accepted sequence must surface, also after rejected forgeries carrying the same sequence. Non-trivial: a replay of an accepted datagram, presentations exactly 255 and 256 behind, and a forged copy presented before its genuine original. Distinct = hash of the decoded operation trace.".into()
+        "A case = 1-3 sessions connected to one secure server (fresh token each), per session and direction a pool of 300-1500 genuine payload datagrams produced by generate_payload_packet with the send counter preset to natural, 300, 256k-3, 2^32-5, 2^56-3, 2^63 or 2^64-5001; then a history of presentations whose sequence is chosen relative to the highest accepted one (next, max+k, max, max-1, max-255, max-256, max-257, max-256k, random) and whose form is genuine first-time, replay, bit-flipped / truncated / extended / prefix-modified copy, re-addressed to another session's endpoint or source address, presented in the other direction, or re-sealed with the session's own key under another protocol id or with another session's key. Model per session and direction = set of accepted sequences and their maximum (initialised with the replay-protected handshake packets). Oracles: a payload surfaces only from an unmodified genuine datagram of that session and direction, equals the bytes given to generate_payload_packet, carries that session's client id, and no datagram surfaces twice; an unmodified genuine datagram presented for the first time while less than 256 behind the highest accepted sequence must surface, also after rejected forgeries carrying the same sequence. A fifth of the cases instead drive the replay window structure itself (hook re-export) with 50-1500 sequence numbers chosen around the highest accepted one at magnitudes up to 2^64-2001 and compare already_received with the reference rule (reject iff accepted before or >= 256 behind). Non-trivial: a replay of an accepted datagram, presentations exactly 255 and 256 behind, and a forged copy presented before its genuine original. Distinct = hash of the decoded operation trace.".into()
     }
     fn assumptions(&self) -> Vec<String> {
         vec![
             "one fresh token per session (token re-use across sessions is outside the statement)".into(),
             "re-sealing with the right key, protocol id and a fresh sequence is not a forgery (the attacker has no keys)".into(),
+            "sequence number 2^64-1 is outside the domain (it is the replay window's empty marker and the send counter cannot pass it)".into(),
         ]
     }
     fn pbt(&self, tier: Tier) -> PbtCfg {
         PbtCfg { cases: tier.pick(30_000, 800_000), max_len: tier.pick(1200, 4000), shrink_ms: 120_000 }
     }
     fn required_labels(&self) -> Vec<&'static str> {
-        vec!["replay_of_accepted", "behind_255", "behind_256", "forged_before_genuine", "genuine_after_forgery", "readdressed", "other_protocol", "other_key", "wide_sequence", "out_of_order_accept"]
+        vec!["replay_of_accepted", "behind_255", "behind_256", "forged_before_genuine", "genuine_after_forgery", "readdressed", "other_protocol", "other_key", "wide_sequence", "out_of_order_accept", "replay_window_model"]
     }
     fn run_choices(&self, ctx: &mut Ctx) -> Outcome {
+        if ctx.src.chance(50) {
+            return replay_window_case(ctx);
+        }
         let mut nw = NetWorld::new(ctx.src.u16() as u64);
         nw.servers.push(mk_server(0, 1, PROTO, 4, nw.now, true));
         let sessions = 1 + ctx.src.below(3);
